@@ -349,6 +349,15 @@ theorem C17_rollback_never_panics (s : Engine.Eng) (m : String) (h : rollbackJou
           · simp [hval, pure, Except.pure] at hy
         · simp [pure, Except.pure] at h3
 
+/-- **checkpointing never panics**: `CheckpointNoLock` (restart, halt-lock acquisition, role change)
+    on ARBITRARY WAL bytes, for a database whose page size is a non-zero multiple of 8 (every valid
+    page size), succeeds or fails with an ordinary error: the WAL scan is total
+    (`C17_wal_scan_total`), a frame that names page zero is an ordinary write error, every other
+    page write and the final truncations cannot panic -/
+theorem C17_checkpoint_never_panics (s : Engine.Eng) (hps : s.pageSize ≠ 0) (h8 : s.pageSize % 8 = 0)
+    (s' : Engine.Eng) (m : String) : Engine.checkpointNoLock s ≠ .error (s', .panic m) :=
+  checkpointNoLock_no_panic s hps h8 s' m
+
 /-- journal playback on ARBITRARY journal bytes writes only inside the database's pages: playing
     back one segment never extends the database file beyond the original size recorded in that
     segment's header.  A record that claims page zero or the lock page ends the segment, a record
